@@ -884,7 +884,7 @@ func c10Sets(c *Check, tables map[string][]*ssa.Function) {
 				continue // empty result
 			}
 			nret++
-			if len(findMapLoops(sc)) == 0 {
+			if !rangesOverMapParam(sc, 0) {
 				okAll = false
 			}
 			// and its argument is a map
@@ -1215,4 +1215,31 @@ func dependsOnRuntimeValue(v ssa.Value) bool {
 		return false
 	}
 	return rec(v, 0)
+}
+
+// rangesOverMapParam: f walks a map with a range loop, itself or in a function it
+// hands one of its map parameters to (a keys-in-order helper).
+func rangesOverMapParam(f *ssa.Function, depth int) bool {
+	if f == nil || len(f.Blocks) == 0 || depth > 2 {
+		return false
+	}
+	if len(findMapLoops(f)) > 0 {
+		return true
+	}
+	found := false
+	eachCall(f, func(cl ssa.CallInstruction) {
+		sc := staticCallee(cl)
+		if found || sc == nil || !isRepoFn(sc) {
+			return
+		}
+		for _, a := range cl.Common().Args {
+			if _, isParam := unspill(a).(*ssa.Parameter); !isParam {
+				continue
+			}
+			if _, isMap := a.Type().Underlying().(*types.Map); isMap && rangesOverMapParam(sc, depth+1) {
+				found = true
+			}
+		}
+	})
+	return found
 }
